@@ -29,44 +29,77 @@ theorem readFull_ok_length (need : Nat) (sc : Script) (buf : Bytes) (c : Nat)
     rw [h] at this
     cases this
 
-/-- `NewMnemonic`, for every count, language value and reader behaviour -/
+/-- the buffer size may be computed by any arithmetic the translator accepts: evaluated to a literal -/
+theorem bind_makeBytes_lit {β} (a : Int) (m : Nat) (k : Bytes → M β) (st : St) (h : a = (m : Int)) :
+    Go.bind (makeBytes a) k st = k (List.replicate m 0) st := by
+  subst h
+  rw [bind_ok (makeBytes_nonneg (by omega) st), Int.toNat_natCast]
+
+/-- what follows the allocation of the buffer: fill it from the source, encode it -/
+theorem newMnemonic_tail (W : World) (n ℓ : Int) (m : Nat) (st : St)
+    (hn : n = 12 ∨ n = 15 ∨ n = 18 ∨ n = 21 ∨ n = 24) (hm : bufSize n = (m : Int)) :
+    (Go.bind (Go.readFull (List.replicate m 0)) fun buf =>
+      Go.bind (Gen.Code.fromEntropy W buf n ℓ) fun t => Go.pure t) st =
+    ((Model.newMnemonic W.D n ℓ st.script).1, st.afterReads (Model.newMnemonic W.D n ℓ st.script).2) := by
+  have hg : wordGate n = false := (wordGate_iff n).mpr hn
+  have hb : bufSize n ≤ 32 := by
+    have h3 : bufSize n = n + n.tdiv 3 := rfl
+    rw [h3]
+    rcases hn with h | h | h | h | h <;> rw [h] <;> decide
+  have hnonneg : ¬ bufSize n < 0 := by omega
+  have hm' : (bufSize n).toNat = m := by omega
+  unfold newMnemonic
+  rw [hg]
+  simp only [Bool.false_eq_true, if_false, if_neg hnonneg]
+  rw [hm']
+  cases hr : Model.readFull m st.script [] 0 with
+  | mk r calls =>
+    cases r with
+    | err e =>
+      have hrf : Go.readFull (List.replicate m 0) st = (.err (.io e), st.afterReads calls) := by
+        unfold Go.readFull
+        rw [List.length_replicate, hr]
+      rw [bind_err hrf]
+    | ok buf =>
+      have hrf : Go.readFull (List.replicate m 0) st = (.ok buf, st.afterReads calls) := by
+        unfold Go.readFull
+        rw [List.length_replicate, hr]
+      have hl := readFull_ok_length _ _ _ _ hr
+      rw [bind_ok hrf, bind_pure_id,
+        refine_fromEntropy W buf n ℓ _ (by omega) (by rcases hn with h | h | h | h | h <;> rw [h] <;> decide)]
+
+/-- `NewMnemonic`, for every count, language value and reader behaviour.  The buffer size may be
+computed by any arithmetic the translator accepts (`length+length/3`, `length/3*4`, …): it is
+*evaluated* at each of the five counts the gate lets through. -/
 theorem refine_NewMnemonic (W : World) (n ℓ : Int) (st : St) :
     Gen.Code.NewMnemonic W n ℓ st =
       ((Model.newMnemonic W.D n ℓ st.script).1, st.afterReads (Model.newMnemonic W.D n ℓ st.script).2) := by
-  unfold Gen.Code.NewMnemonic newMnemonic
+  unfold Gen.Code.NewMnemonic
+  (try dsimp only)
   rw [wordGate_code]
   cases hg : wordGate n with
-  | true => simp only [if_true, St.afterReads_zero]; rfl
+  | true =>
+    unfold newMnemonic
+    rw [hg]
+    simp only [if_true, St.afterReads_zero]; rfl
   | false =>
     have hn := (wordGate_iff _).mp hg
     simp only [Bool.false_eq_true, if_false]
-    have hbuf : addI n (divIc n 3) = bufSize n := by
-      have h3 : bufSize n = n + n.tdiv 3 := rfl
-      rw [h3]; unfold addI divIc
-      rcases hn with h | h | h | h | h <;> rw [h] <;> decide
-    have hnonneg : ¬ bufSize n < 0 := by
-      have h3 : bufSize n = n + n.tdiv 3 := rfl
-      rw [h3]
-      rcases hn with h | h | h | h | h <;> rw [h] <;> decide
-    have hsmall : (bufSize n).toNat ≤ 32 := by
-      have h3 : bufSize n = n + n.tdiv 3 := rfl
-      rw [h3]
-      rcases hn with h | h | h | h | h <;> rw [h] <;> decide
-    rw [hbuf, bind_ok (makeBytes_nonneg hnonneg st), if_neg hnonneg]
-    cases hr : Model.readFull (bufSize n).toNat st.script [] 0 with
-    | mk r calls =>
-      cases r with
-      | err e =>
-        have hrf : Go.readFull (List.replicate (bufSize n).toNat 0) st = (.err (.io e), st.afterReads calls) := by
-          unfold Go.readFull
-          rw [List.length_replicate, hr]
-        rw [bind_err hrf]
-      | ok buf =>
-        have hrf : Go.readFull (List.replicate (bufSize n).toNat 0) st = (.ok buf, st.afterReads calls) := by
-          unfold Go.readFull
-          rw [List.length_replicate, hr]
-        have hl := readFull_ok_length _ _ _ _ hr
-        rw [bind_ok hrf, bind_pure_id,
-          refine_fromEntropy W buf n ℓ _ (by omega) (by rcases hn with h | h | h | h | h <;> rw [h] <;> decide)]
+    rcases hn with rfl | rfl | rfl | rfl | rfl
+    · rw [bind_makeBytes_lit (m := 16)]
+      · exact newMnemonic_tail W 12 ℓ 16 st (by decide) (by decide)
+      · decide
+    · rw [bind_makeBytes_lit (m := 20)]
+      · exact newMnemonic_tail W 15 ℓ 20 st (by decide) (by decide)
+      · decide
+    · rw [bind_makeBytes_lit (m := 24)]
+      · exact newMnemonic_tail W 18 ℓ 24 st (by decide) (by decide)
+      · decide
+    · rw [bind_makeBytes_lit (m := 28)]
+      · exact newMnemonic_tail W 21 ℓ 28 st (by decide) (by decide)
+      · decide
+    · rw [bind_makeBytes_lit (m := 32)]
+      · exact newMnemonic_tail W 24 ℓ 32 st (by decide) (by decide)
+      · decide
 
 end Bip39V
